@@ -181,8 +181,7 @@ class ValidationContext:
         for attr in iter_class_slots(self):
             setattr(context, attr, getattr(self, attr))
 
-        context.errors = self.errors.copy()
-        context.id_map = self.id_map.copy()
+        # Errors and the xs:ID map are document-wide and must be shared with the copy
         context.identities = self.identities.copy()
         context.inherited = self.inherited.copy()
         context.id_list = self.id_list if self.id_list is None else self.id_list.copy()
